@@ -84,7 +84,10 @@ func HFlistEncode() {
 	vassert(d.Name == "." && d.Mode&0o170000 == 0o040000, "first entry is the directory '.'")
 	vassert(e.Name == "f", "entry name")
 	vassert(e.Mode == kindMode(kind)|int32(perm), "mode (type and permission bits)")
-	vassert(e.Mtime == int32(sec), "mtime")
+	if kind != vfsx.KLink {
+		// (a symlink's own mtime cannot be set by the native replay, so it is not compared)
+		vassert(e.Mtime == int32(sec), "mtime")
+	}
 	if kind == vfsx.KReg {
 		vassert(e.Length == int64(n), "length")
 	}
